@@ -333,6 +333,7 @@ def syn_sites():
         Site('xo_saved_else', SYN, I_XO, 'process_into_buffer', 'assign', target='self.saved_frames', nth=1, selfrec=R, ty='usize'),
         Site('xo_frames_needed_out', SYN, I_XO, 'process_into_buffer', 'let', var='frames_needed_out', selfrec=R, ty='usize'),
         Site('xo_chunks_needed', SYN, I_XO, 'process_into_buffer', 'let', var='chunks_needed', selfrec=R, ty='usize'),
+        Site('xo_input_frames_used', SYN, I_XO, 'process_into_buffer', 'let', var='input_frames_used', selfrec=R, ty='usize'),
         Site('xo_frames_needed_next', SYN, I_XO, 'process_into_buffer', 'assign', target='self.frames_needed', selfrec=R, ty='usize'),
         Site('xo_input_frames_max', SYN, I_XO, 'input_frames_max', 'body', selfrec=R, ty='usize'),
         Site('xo_input_frames_next', SYN, I_XO, 'input_frames_next', 'body', selfrec=R, ty='usize'),
